@@ -304,14 +304,15 @@ theorem mem_erase {n : Name} {x : Name × Val} : ∀ {loc : Ns}, x ∈ erase n l
 
 /-- a value that code may bind: an opaque object, a module that is (or was) in `sys.modules`,
 or a value found in some namespace -/
-def Bindable (F : Facts) (σ : State) (v : Val) : Prop :=
-  v = .obj ∨ (∃ c, v = .mod c ∧ σ.statusOf c ≠ .absent) ∨ ∃ m n, σ.get F m n = some v
+def Bindable (F : Facts) (σ : State) (loc : Ns) (v : Val) : Prop :=
+  v = .obj ∨ (∃ c, v = .mod c ∧ σ.statusOf c ≠ .absent) ∨ (∃ m n, σ.get F m n = some v) ∨
+    ∃ k, lookup k loc = some v
 
 /-- an invariant `J` of (global state, import-bound locals) that every step of code in scope
 `sc` preserves, as long as the import machinery is only asked for modules that `allow` -/
 structure StepInv (F : Facts) (sc : Scope) (imp : Imp) (allow : ModId → Prop) (allowG : Prop)
     (J : State → Ns → Prop) : Prop where
-  bind : ∀ σ loc n v, J σ loc → Bindable F σ v →
+  bind : ∀ σ loc n v, J σ loc → Bindable F σ loc v →
     J (bindIn F sc loc σ n v).1 (bindIn F sc loc σ n v).2
   unbindL : ∀ σ loc n, J σ loc → J σ (erase n loc)
   unbindG : ∀ σ loc n, sc.fn.isSome = false → J σ loc → J (σ.set F sc.mod n none) loc
@@ -321,6 +322,39 @@ structure StepInv (F : Facts) (sc : Scope) (imp : Imp) (allow : ModId → Prop) 
 
 /-- after a successful import the module is in `sys.modules` -/
 def ImpLoads (imp : Imp) : Prop := ∀ c σ σ', imp c σ = .ok (σ', none) → σ'.statusOf c ≠ .absent
+
+theorem lookupScope_bindable (F : Facts) (σ : State) (sc : Scope) (loc : Ns) (n : Name) (v : Val)
+    (h : lookupScope F σ sc loc n = some v) : Bindable F σ loc v := by
+  unfold lookupScope at h
+  split at h
+  · rename_i w hw
+    cases h
+    split at hw
+    · exact Or.inr (Or.inr (Or.inr ⟨n, hw⟩))
+    · cases hw
+  · split at h
+    · rename_i w hw
+      cases h
+      exact Or.inr (Or.inr (Or.inl ⟨sc.mod, n, hw⟩))
+    · split at h
+      · cases h; exact Or.inl rfl
+      · cases h
+
+theorem walkVal_bindable (F : Facts) (σ : State) (loc : Ns) :
+    ∀ (ch : List Name) (v w : Val), Bindable F σ loc v → walkVal F σ v ch = .ok w → Bindable F σ loc w := by
+  intro ch
+  induction ch with
+  | nil => intro v w hv h; cases v <;> (simp only [walkVal] at h; cases h; exact hv)
+  | cons a r ih =>
+    intro v w hv h
+    cases v with
+    | obj => simp only [walkVal] at h; cases h; exact Or.inl rfl
+    | mod p =>
+      simp only [walkVal] at h
+      split at h
+      · cases h
+      · rename_i v' hg
+        exact ih v' w (Or.inr (Or.inr (Or.inl ⟨p, a, hg⟩))) h
 
 section Master
 variable {F : Facts} {sc : Scope} {imp : Imp} {allow : ModId → Prop} {allowG : Prop}
@@ -338,7 +372,7 @@ theorem execFrom_step (h : StepInv F sc imp allow allowG J) (hl : ImpLoads imp) 
   split at he
   · rename_i v hg
     cases he
-    exact h.bind _ _ _ _ hJ (Or.inr (Or.inr ⟨m, n, hg⟩))
+    exact h.bind _ _ _ _ hJ (Or.inr (Or.inr (Or.inl ⟨m, n, hg⟩)))
   · split at he
     · cases he
     · rename_i c hch
@@ -352,7 +386,7 @@ theorem execFrom_step (h : StepInv F sc imp allow allowG J) (hl : ImpLoads imp) 
         split at he
         · rename_i v hg
           cases he
-          exact h.bind _ _ _ _ h1 (Or.inr (Or.inr ⟨m, n, hg⟩))
+          exact h.bind _ _ _ _ h1 (Or.inr (Or.inr (Or.inl ⟨m, n, hg⟩)))
         · cases he
           exact h.bind _ _ _ _ h1 (Or.inr (Or.inl ⟨c, rfl, hl _ _ _ hi⟩))
 
@@ -385,7 +419,13 @@ theorem execEvs_step (h : StepInv F sc imp allow allowG J) (hl : ImpLoads imp) :
   induction evs with
   | nil =>
     intro mode saved loc σ out _ hJ _ he
-    cases mode <;> (simp only [execEvs] at he; cases he; exact hJ)
+    cases mode with
+    | raising x d r =>
+      cases x <;> simp only [execEvs] at he
+      · cases he; exact hJ
+      · cases he
+    | run => simp only [execEvs] at he; cases he; exact hJ
+    | skipping d r => simp only [execEvs] at he; cases he; exact hJ
   | cons ev rest ih =>
     intro mode saved loc σ out hT hJ hs he
     have hTr : ∀ e ∈ rest, (∀ t ∈ evTargets F e, allow t) ∧ (Ev.writesGlobals e = true → allowG) :=
@@ -400,7 +440,13 @@ theorem execEvs_step (h : StepInv F sc imp allow allowG J) (hl : ImpLoads imp) :
     cases mode with
     | raising x d r =>
       cases ev <;> simp only [execEvs] at he
-      case tryExcept => cases d <;> exact ih _ _ _ _ _ hTr hJ hs he
+      case tryExcept mask =>
+        cases d with
+        | zero =>
+          by_cases hm : (Nat.land mask x.kind != 0) = true
+          · simp only [hm, ite_true] at he; exact ih _ _ _ _ _ hTr hJ hs he
+          · simp only [hm] at he; exact ih _ _ _ _ _ hTr hJ hs he
+        | succ d' => exact ih _ _ _ _ _ hTr hJ hs he
       case leave =>
         cases r with
         | succ r' => exact ih _ _ _ _ _ hTr hJ hs he
@@ -442,23 +488,28 @@ theorem execEvs_step (h : StepInv F sc imp allow allowG J) (hl : ImpLoads imp) :
         split at he
         · split at he
           · exact ih _ _ _ _ _ hTr (h.unbindL _ _ _ hJ) hs he
-          · cases he
+          · exact ih _ _ _ _ _ hTr hJ hs he
         · rename_i hfn
           split at he
           · exact ih _ _ _ _ _ hTr (h.unbindG _ _ _ (by simpa using hfn) hJ) hs he
-          · cases he
+          · exact ih _ _ _ _ _ hTr hJ hs he
       | load n =>
         simp only [execEvs] at he
-        split at he
-        · exact ih _ _ _ _ _ hTr hJ hs he
-        · cases he
+        split at he <;> exact ih _ _ _ _ _ hTr hJ hs he
       | attr root ch =>
         simp only [execEvs] at he
         split at he
-        · cases he
-        · split at he
+        · exact ih _ _ _ _ _ hTr hJ hs he
+        · split at he <;> exact ih _ _ _ _ _ hTr hJ hs he
+      | alias n root ch =>
+        simp only [execEvs] at he
+        split at he
+        · exact ih _ _ _ _ _ hTr hJ hs he
+        · rename_i v hlk
+          split at he
           · exact ih _ _ _ _ _ hTr hJ hs he
-          · cases he
+          · rename_i w hw
+            exact ih _ _ _ _ _ hTr (h.bind _ _ _ _ hJ (walkVal_bindable F σ loc _ _ _ (lookupScope_bindable F σ sc loc root v hlk) hw)) hs he
       | ensure c =>
         simp only [execEvs] at he
         have hc : allow c := hT0 c (by simp [evTargets])
@@ -474,6 +525,7 @@ theorem execEvs_step (h : StepInv F sc imp allow allowG J) (hl : ImpLoads imp) :
           intro d hd
           exact hT0 d (by simp [evTargets, hd])
         split at he
+        · exact ih _ _ _ _ _ hTr hJ hs he
         · cases he
         · rename_i σ1 loc1 h1
           exact ih _ _ _ _ _ hTr (execFrom_step h hl _ _ _ hc _ _ _ hJ h1) hs he
@@ -490,7 +542,7 @@ theorem execEvs_step (h : StepInv F sc imp allow allowG J) (hl : ImpLoads imp) :
           exact ih _ _ _ _ _ hTr (execFroms_step h hl _ hc _ _ _ _ hJ h1) hs he
         · rename_i σ1 loc1 x h1
           exact ih _ _ _ _ _ hTr (execFroms_step h hl _ hc _ _ _ _ hJ h1) hs he
-      | noModule n => simp only [execEvs] at he; cases he
+      | noModule n => simp only [execEvs] at he; exact ih _ _ _ _ _ hTr hJ hs he
       | enter =>
         simp only [execEvs] at he
         refine ih _ _ _ _ _ hTr hJ ?_ he
@@ -510,7 +562,7 @@ theorem execEvs_step (h : StepInv F sc imp allow allowG J) (hl : ImpLoads imp) :
         simp only [execEvs] at he
         split at he <;> exact ih _ _ _ _ _ hTr hJ hs he
       | tryBegin => simp only [execEvs] at he; exact ih _ _ _ _ _ hTr hJ hs he
-      | tryExcept => simp only [execEvs] at he; exact ih _ _ _ _ _ hTr hJ hs he
+      | tryExcept mask => simp only [execEvs] at he; exact ih _ _ _ _ _ hTr hJ hs he
       | tryEnd => simp only [execEvs] at he; exact ih _ _ _ _ _ hTr hJ hs he
       | gbind n =>
         simp only [execEvs] at he
@@ -519,7 +571,7 @@ theorem execEvs_step (h : StepInv F sc imp allow allowG J) (hl : ImpLoads imp) :
         simp only [execEvs] at he
         split at he
         · exact ih _ _ _ _ _ hTr (h.gset _ _ _ _ (hG0 rfl) (Or.inl rfl) hJ) hs he
-        · cases he
+        · exact ih _ _ _ _ _ hTr hJ hs he
 
 end Master
 
@@ -709,13 +761,16 @@ theorem LocInv.mono {σ σ' : State} {loc : Ns} (h : LocInv σ loc)
 
 theorem LocInv.nil (σ : State) : LocInv σ [] := by intro x hx; cases hx
 
-theorem bindable_mod {F : Facts} {σ : State} {v : Val} (h : AttrInv F σ) (hb : Bindable F σ v) :
-    ∀ c, v = .mod c → σ.statusOf c ≠ .absent := by
+theorem bindable_mod {F : Facts} {σ : State} {loc : Ns} {v : Val} (h : AttrInv F σ) (hl : LocInv σ loc)
+    (hb : Bindable F σ loc v) : ∀ c, v = .mod c → σ.statusOf c ≠ .absent := by
   intro c hc
-  rcases hb with rfl | ⟨c', rfl, h2⟩ | ⟨m, n, hg⟩
+  rcases hb with rfl | ⟨c', rfl, h2⟩ | ⟨m, n, hg⟩ | ⟨k, hk⟩
   · cases hc
   · cases hc; exact h2
   · subst hc; exact h m n c hg
+  · subst hc
+    obtain ⟨k', hk'⟩ := mem_of_lookup hk
+    exact hl (k', .mod c) hk' c rfl
 
 theorem attr_stepInv (F : Facts) (sc : Scope) (imp : Imp)
     (hinv : ∀ c σ σ' exc, AttrInv F σ → imp c σ = .ok (σ', exc) → AttrInv F σ')
@@ -723,7 +778,7 @@ theorem attr_stepInv (F : Facts) (sc : Scope) (imp : Imp)
     StepInv F sc imp (fun _ => True) True (fun σ loc => AttrInv F σ ∧ LocInv σ loc) where
   bind := by
     intro σ loc n v ⟨h, hl⟩ hb
-    have hv := bindable_mod h hb
+    have hv := bindable_mod h hl hb
     unfold bindIn
     split
     · exact ⟨h, hl.bind n v hv⟩
